@@ -38,6 +38,14 @@ class Msg:
     def as_bytes(self):
         return b"\x00"
 
+    @property
+    def message_type(self):
+        from han.common import MeterMessageType
+        return MeterMessageType.UNKNOWN
+
+    def __len__(self):
+        return 1
+
 
 class StubReader:
     def __init__(self, r, eng, calls, maxmsgs):
@@ -140,8 +148,16 @@ def real_path(proto, readers, kind):
             try:
                 q = asyncio.Queue()
                 p = (MC.SmartMeterMessagePayloadProtocol if proto == "payload" else MC.SmartMeterMessageProtocol)(q, [make_reader(r) for r in readers])
-                for ch in chunks:
-                    p.data_received(ch)
+                try:
+                    for ch in chunks:
+                        p.data_received(ch)
+                except (PathAbort, EngineLimit, EngineFault):
+                    raise
+                except Exception as e:
+                    if ctx.witness is None:
+                        ctx.witness = w
+                    ctx.violation(f"{type(e).__name__} escapes data_received ({proto} protocol, readers {readers})", w)
+                    return
                 got = []
                 while not q.empty():
                     v = q.get_nowait()
@@ -178,9 +194,15 @@ def noise_between_path(proto, readers, kind, k):
             m2 = ref_p1.build_readout(b"/ADN9 6534", [b"1-0:1.7.0(00.332*kW)"])
             m3 = ref_p1.build_readout(b"/LGF5E360", [b"1-0:2.7.0(00.000*kW)"], checksum=False)
             sel = "p1"
+        if eng.pick(2) == 1:
+            # the free octets replace octets INSIDE message 2 (a damaged message between two good ones)
+            pos_ = len(m2) // 2
+            m2 = m2[:pos_] + noise + m2[pos_ + k:]
+            noise = []
         stream = SBytes(m1 + noise + m2 + m3)
-        a, b = len(m1), len(m1) + k
+        a, b = len(m1), len(m1) + len(noise)
         for cuts in [(a, b), (a,), (b,), (a, b, b + len(m2))]:
+            cuts = tuple(sorted(set(c for c in cuts if 0 < c < len(stream))))
             chunks = HC.split(stream, cuts)
             w = {"sub": "real", "proto": proto, "readers": list(readers), "chunks": chunks}
             refr = make_reader(sel)
@@ -197,8 +219,16 @@ def noise_between_path(proto, readers, kind, k):
             try:
                 q = asyncio.Queue()
                 p = (MC.SmartMeterMessagePayloadProtocol if proto == "payload" else MC.SmartMeterMessageProtocol)(q, [make_reader(r) for r in readers])
-                for ch in chunks:
-                    p.data_received(ch)
+                try:
+                    for ch in chunks:
+                        p.data_received(ch)
+                except (PathAbort, EngineLimit, EngineFault):
+                    raise
+                except Exception as e:
+                    if ctx.witness is None:
+                        ctx.witness = w
+                    ctx.violation(f"{type(e).__name__} escapes data_received ({proto} protocol, readers {readers})", w)
+                    return
                 got = []
                 while not q.empty():
                     v = q.get_nowait()
